@@ -43,15 +43,27 @@ shrink_candidates = rc.shrink_candidates
 
 def rebuild(case):
     c = {"kind": case.get("kind", "corpus"), "py": case["py"]}
+    if case["py"].get("pipeline"):
+        return rc.pipeline_models(c)
     rc.attach_models(MODNAME, [c], "rebuild")
     return c
 
 
+prepare_compare = rc.prepare_pipeline
+
+
 def gen(rng, tier):
+    import os
+    only = os.environ.get("VERIF_C07_ONLY")      # diagnostic switch: "pipeline" or "classic" family alone
     n = 2000 if tier == "quick" else 8000
-    cases = [rc.gen_case(rng, "random") for _ in range(n)]
+    cases = [] if only == "pipeline" else [rc.gen_case(rng, "random") for _ in range(n)]
     rc.attach_models(MODNAME, cases)
     for c in cases:
+        yield c
+    if only == "classic":
+        return
+    # the whole-pipeline family: raw input -> both documents (command 850), no pre-pass
+    for c in rc.pipeline_cases(rng, 500 if tier == "quick" else 1500):
         yield c
 
 
@@ -63,7 +75,9 @@ def nontrivial(case, io):
 
 
 def extra_evidence(cases, impl_out, model_out):
-    return rc.histograms(cases, impl_out)
+    ev = rc.histograms(cases, impl_out)
+    ev.update(rc.pipeline_evidence())
+    return ev
 
 
 def search(rng, tier, mism):
@@ -73,3 +87,27 @@ def search(rng, tier, mism):
     rc.attach_models(MODNAME, extra, "search")
     for c in extra:
         yield c
+
+
+# ---- the whole-pipeline family (added with coq/Render/Pipeline.v) ----
+RULE += (" [pipeline:*: the same generator (numeric data with a LinearScale, date/datetime/time data with the default scale, 4 "
+         "directions, 3 algorithms, bounds, density, stub width, colours in four forms, ticks on/off, explicit and derived "
+         "domains), but the model is handed the RAW input only - times, widths, texts, options, engine options, today - and "
+         "produces both documents through Axis o Compose o Scene (command 850); no pre-pass of the implementation.]")
+EXPLANATION += (" C07_pipeline is about timeline_docs (coq/Render/Pipeline.v), the composition of the axis pipeline, the "
+                "layout engine and the emitters from the raw input; the pipeline:* family compares its two documents "
+                "with the parsed real exports field by field (integers and strings exactly; decimals derived from an axis "
+                "position to the printed precision plus 1e-9 x axis length, since the model's scale is exact). A "
+                "disagreement is counted as ambiguous only in six documented double-versus-exact classes, counted "
+                "separately in the evidence (pipeline_ambiguity_classes): %i truncation of a tick sitting on an integer; "
+                "density x layerWidth inexact in doubles (model re-run with the double's product agrees); a distributor capacity "
+                "comparison where the exact width sum equals the capacity within 1e-12 (model re-run with the density moved "
+                "by 1e-12 agrees); an enumerated "
+                "nice()/ticks() alternative of the C11/C14/C16 checks, or a solver position within 1e-7 of a .5 rounding "
+                "boundary, or another discrete flip under the 1e-13 perturbation of the ideal positions - the last three "
+                "only if the model re-run downstream of the implementation's axis values (command 851) agrees exactly.")
+LEVEL_TEXT += (" C07_pipeline / C07_pipeline_total / C07_pipeline_own_stubs / C07_pipeline_boxes_disjoint state all clauses for "
+               "the documents computed from the raw input by the composed model, with no abstract hypothesis left (one "
+               "dot/link/box per datum via a permutation of the data indices; dots and ticks at one affine increasing map of "
+               "the full instant; links through the datum's own reported stubs; box sizes and texts; tick texts; C08's "
+               "disjointness for nodeSpacing >= 3, layerGap >= 1), and that model is tied end to end (command 850).")
